@@ -2378,3 +2378,8 @@ mod tests {
         )
     }
 }
+
+#[cfg(kani)]
+pub(crate) mod verif {
+    include!(concat!(env!("LIBP2P_VERIF"), "/hooks/swarm_lib.rs"));
+}
